@@ -284,3 +284,21 @@ def c03(ctx):
                     trace_module="Trace_C03", sigfn=c03_sig,
                     assumptions=["TLC/SANY and the JVM", "a line whose `before` is no longer canonical (after a rejected line) is skipped, counted in trace_events_skipped_by_spec",
                                  "the value of a newly present PCR/OPCR/splice countdown is unspecified and bound to the observed bytes"])
+
+
+# ---------------------------------------------------------------- C02
+
+@prop("C02", "Trace_C02")
+def c02(ctx):
+    V.mc(ctx, "MC_C02", workers=12)
+    summ = V.gen_traces(ctx, shards=12)
+    V.validate(ctx, "Trace_C02", summ, V.default_sig, par=12)
+    return V.finish(ctx, "model_checking",
+                    rule="MC: the constructive SetPayload of TsPacket satisfies C02's postconditions (count, read-back, preserved header and adaptation-field content, stuffing, partition) for all "
+                         "144 adaptation-field shapes x 11 packet kinds (payload only, AF length 0, lengths 1..182 sample) x 17 payload lengths. B3: real packets of every adaptation_field_length "
+                         "0..183 (blank and randomly populated, AF-only, payload-only, degenerate full AF) through Header/Payload (function and method), method SetPayload with payload lengths 0..200 "
+                         "(incl. capacity-1/capacity/capacity+1), package-level SetPayload and the creation helpers; validated by TLC against TsPacket. "
+                         "class = (operation, packet kind, AF length bucket, payload length vs room, error)",
+                    trace_module="Trace_C02", sigfn=V.default_sig,
+                    assumptions=["TLC/SANY and the JVM", "AdaptationField/TsHeader specs (C01, C03)", "payload bytes used for SetPayload never equal 0xFF, so stuffing is distinguishable",
+                                 "creation helpers are specified only by the fields the property names (sync, PID, counter, flags, payload prefix)"])
